@@ -210,6 +210,18 @@ Proof.
   unfold dz_clean in Hc. rewrite (dz_M_eq _ _ Hm) in Hc. lia.
 Qed.
 
+Lemma dz_clean_transfer (w w' : world) :
+  dz_clean w -> w_entity OT w' = w_entity OT w -> w_message OT w' = w_message OT w -> dz_clean w'.
+Proof. unfold dz_clean. intros Hc He Hm. rewrite (dz_M_eq w w' Hm). lia. Qed.
+
+Lemma dz_good_transfer w0 l rest (w : world) l' (w' : world) :
+  dz_good w0 l rest w -> w_entity OT w' = w_entity OT w -> w_message OT w' = w_message OT w ->
+  dz_obuf l' = dz_obuf l -> dz_pass l' = dz_pass l -> dz_good w0 l' rest w'.
+Proof.
+  intros (Hwf & Hr & Hc & Hm & He & Hp) He' Hm' Ho' Hp'. unfold dz_good, dz_wf in *.
+  repeat split; auto; try congruence; try lia. eapply dz_clean_transfer; eauto.
+Qed.
+
 Lemma dz_wf_reset l : dz_wf (dz_set_obuf l []).
 Proof. unfold dz_wf. wsimpl. cbn. lia. Qed.
 
@@ -232,5 +244,1114 @@ Proof.
     all: try (right; split; congruence).
   - apply negb_false_iff, Z.eqb_eq in Hcrc. unfold dz_good. wsimpl. repeat split; auto using dz_wf_reset; try congruence; try lia.
 Qed.
+
+Lemma dz_fail_end_spec l (w : world) l' w' :
+  dz_fail_end OT ask l w = (l', w') ->
+  w_entity OT w' = w_entity OT w /\ w_message OT w' = w_message OT w /\ dz_obuf l' = dz_obuf l /\ dz_pass l' = dz_pass l.
+Proof.
+  unfold dz_fail_end. destruct (dz_zinit l =? c_dz_COMPRESSION_LZMA).
+  - destruct (dz_ask OT ask w QLzFree) as [a w1] eqn:Ha. apply dz_ask_spec in Ha. intros H; inversion H; subst; wsimpl. intuition.
+  - destruct (dz_ask OT ask w QEnd) as [a w1] eqn:Ha. apply dz_ask_spec in Ha. intros H; inversion H; subst; wsimpl. intuition.
+Qed.
+
+Lemma dz_after_spec B w0 d l rest w input rc :
+  Z.of_nat dz_BUF <= B -> dz_len d <= B -> dz_good w0 l rest w ->
+  match dz_after OT ask c next d l rest w input rc with
+  | DzRet _ l' rest' w' r => dz_fin B w0 l' rest' w' r
+  | DzCont _ l' rest' w' _ _ => dz_good w0 l' rest' w'
+  | DzRestart _ l' rest' w' _ _ => dz_good w0 l' rest' w'
+  end.
+Proof.
+  intros HB HdB Hg. pose proof Hg as (Hwf & Hr & Hc & Hm & He & Hp). unfold dz_after.
+  set (rc' := if (dz_avail_out l <? dz_BUF)%nat && (rc =? c_dz_Z_DATA_ERROR) then c_dz_Z_STREAM_END else rc).
+  destruct (rc' =? c_dz_Z_STREAM_END).
+  { destruct (dz_deliver OT c next l rest (dz_some (dz_obuf l)) w) as [[rest1 w1] crc] eqn:Hd.
+    apply dz_deliver_spec in Hd; auto. destruct Hd as (Hm1 & Hr1 & He1 & Hb1 & Hok1).
+    rewrite (dz_M_eq _ _ Hm) in Hb1.
+    destruct (negb (crc =? c_HTP_OK)) eqn:Hcrc.
+    - destruct (dz_end OT ask l w1) as [l2 w2] eqn:Hend. apply dz_end_spec in Hend. destruct Hend as (He2 & Hm2 & Ho2 & Hp2 & Hz2).
+      unfold dz_fin. wsimpl. repeat split; auto using dz_wf_reset; try congruence; try lia.
+      all: try (intros Hx; subst crc; rewrite Z.eqb_refl in Hcrc; discriminate).
+      all: try (right; split; congruence).
+    - apply negb_false_iff, Z.eqb_eq in Hcrc. unfold dz_fin. wsimpl. repeat split; auto using dz_wf_reset; try congruence; try lia. }
+  destruct (negb (rc' =? c_dz_Z_OK)); [|exact Hg].
+  destruct (dz_fail_end OT ask l w) as [l1 w1] eqn:Hfe. apply dz_fail_end_spec in Hfe. destruct Hfe as (He1 & Hm1 & Ho1 & Hp1).
+  set (w1' := if dz_fed l1 then w_set_late OT w1 true else w1).
+  assert (Hw1' : w_entity OT w1' = w_entity OT w1 /\ w_message OT w1' = w_message OT w1).
+  { subst w1'. destruct (dz_fed l1); wsimpl; auto. }
+  destruct Hw1' as [He1' Hm1'].
+  destruct (dz_restart_dec OT ask l1 (dd_bytes d) w1') as [[l2 w2] [cn|]] eqn:Hrs;
+    apply dz_restart_dec_spec in Hrs; destruct Hrs as (He2 & Hm2 & Ho2 & Hp2).
+  - eapply dz_good_transfer; [exact Hg| | | |]; wsimpl; congruence.
+  - assert (Hc2 : dz_clean w2). { eapply dz_clean_transfer; [exact Hc| |]; congruence. }
+    destruct (dz_callback OT c d w2) as [w3 crc] eqn:Hcb. apply dz_callback_clean in Hcb; auto.
+    destruct Hcb as (Hm3 & He3 & Hb3 & Hok3). rewrite (dz_M_eq w0 w2) in Hb3 by congruence.
+    destruct (negb (crc =? c_HTP_OK)) eqn:Hcrc.
+    + unfold dz_fin, dz_wf in *. wsimpl. repeat split; auto; try congruence; try lia.
+      all: try (intros Hx; exfalso; apply dz_ok_ne_error; exact Hx).
+      all: try (right; split; congruence).
+    + apply negb_false_iff, Z.eqb_eq in Hcrc. unfold dz_fin. wsimpl. repeat split; auto using dz_wf_reset; try congruence; try lia.
+      unfold dz_wf. wsimpl. cbn. lia.
+Qed.
+
+Lemma dz_iter_spec B w0 d l rest w input rc :
+  Z.of_nat dz_BUF <= B -> dz_len d <= B -> dz_good w0 l rest w ->
+  match dz_iter OT ask c next d l rest w input rc with
+  | DzRet _ l' rest' w' r => dz_fin B w0 l' rest' w' r
+  | DzCont _ l' rest' w' _ _ => dz_good w0 l' rest' w'
+  | DzRestart _ l' rest' w' _ _ => dz_good w0 l' rest' w'
+  end.
+Proof.
+  intros HB HdB Hg. unfold dz_iter.
+  pose proof (dz_flush_full_spec B w0 l rest w HB Hg) as Hf.
+  destruct (dz_flush_full OT ask c next l rest w) as [[[l1 rest1] w1]|[[[l1 rest1] w1] r1]]; [|exact Hf].
+  destruct Hf as (Hwf & Hr & Hc & Hm & He & Hp).
+  pose proof (dz_decode_spec d l1 w1 input rc Hwf) as Hd.
+  destruct (dz_decode OT ask d l1 w1 input rc) as [[[[l2 w2] input2] rc2]|[[l2 w2] r2]]; destruct Hd as (He2 & Hm2 & Hwf2 & Hp2).
+  - apply dz_after_spec; auto. unfold dz_good. repeat split; auto; try congruence; try lia. eapply dz_clean_transfer; eauto.
+  - apply dz_good_fin; [pose proof dz_BUF_val; lia|]. unfold dz_good. repeat split; auto; try congruence; try lia. eapply dz_clean_transfer; eauto.
+Qed.
+
+Lemma dz_loop_spec B w0 d fuel : forall l rest w input rc,
+  Z.of_nat dz_BUF <= B -> dz_len d <= B -> dz_good w0 l rest w ->
+  let '(l', rest', w', r) := dz_loop OT ask c next fuel d l rest w input rc in dz_fin B w0 l' rest' w' r.
+Proof.
+  induction fuel as [|f IH]; intros l rest w input rc HB HdB Hg; cbn [dz_loop].
+  - apply dz_good_fin; auto. pose proof dz_BUF_val; lia.
+  - destruct input as [|b input']; [apply dz_good_fin; auto; pose proof dz_BUF_val; lia|].
+    pose proof (dz_iter_spec B w0 d l rest w (b :: input') rc HB HdB Hg) as Hi.
+    destruct (dz_iter OT ask c next d l rest w (b :: input') rc) as [l1 rest1 w1 r1|l1 rest1 w1 in1 rc1|l1 rest1 w1 cn rc1].
+    + exact Hi.
+    + apply IH; auto.
+    + destruct (dz_enter d cn) as [in1|]; [apply IH; auto|apply dz_good_fin; auto; pose proof dz_BUF_val; lia].
+Qed.
+
+Definition dz_head_dead (ls : list dz_layer) : Prop :=
+  match ls with l :: _ => dz_zinit l = 0 /\ dz_pass l = false | [] => False end.
+
+Definition dz_post (B : Z) (l : dz_layer) (d : dz_data) (w : world) (ls' : list dz_layer) (w' : world) (r : Z) : Prop :=
+  w_message OT w' = w_message OT w /\ Forall dz_wf ls' /\ w_entity OT w <= w_entity OT w' /\
+  w_entity OT w' <= dz_M w + B /\ (r = c_HTP_OK -> dz_clean w') /\
+  (dz_pass l = false -> dd_null d = false -> dz_clean w' \/ dz_head_dead ls').
+
+Lemma dz_layer_run_spec B l rest d (w : world) ls' w' r :
+  dz_layer_run OT ask c next l rest d w = (ls', w', r) ->
+  Z.of_nat dz_BUF <= B -> dz_len d <= B -> dz_wf l -> Forall dz_wf rest -> dz_clean w ->
+  dz_post B l d w ls' w' r.
+Proof.
+  intros H HB HdB Hwf Hr Hc. unfold dz_layer_run in H. pose proof dz_BUF_val as HBV. unfold dz_post.
+  destruct (dz_pass l) eqn:Hp.
+  { destruct (dz_callback OT c d w) as [w1 crc] eqn:Hcb. inversion H; subst; clear H.
+    apply dz_callback_clean in Hcb; auto. destruct Hcb as (Hm1 & He1 & Hb1 & Hok1).
+    repeat split; auto; try lia; try discriminate.
+    destruct (negb (crc =? c_HTP_OK)) eqn:Hcrc; intros Hx.
+    - exfalso. apply dz_ok_ne_error. exact Hx.
+    - apply negb_false_iff, Z.eqb_eq in Hcrc. auto. }
+  destruct (dd_null d) eqn:Hn.
+  { set (dout := match dz_obuf l with [] => dz_null | _ :: _ => dz_some (dz_obuf l) end) in H.
+    assert (Hdout : (length (dd_bytes dout) <= dz_BUF)%nat).
+    { subst dout. unfold dz_wf in Hwf. destruct (dz_obuf l); cbn [dd_bytes dz_null dz_some length] in *; lia. }
+    assert (Hcbk : forall ls0, (let '(w0, crc) := dz_callback OT c dout w in
+                     if negb (crc =? c_HTP_OK) then let '(l0, w1) := dz_end OT ask l w0 in (l0 :: ls0, w1, crc) else (l :: ls0, w0, c_HTP_OK)) = (ls', w', r) ->
+                   Forall dz_wf ls0 ->
+                   w_message OT w' = w_message OT w /\ Forall dz_wf ls' /\ w_entity OT w <= w_entity OT w' /\
+                   w_entity OT w' <= dz_M w + B /\ (r = c_HTP_OK -> dz_clean w')).
+    { intros ls0 Hx Hls0. destruct (dz_callback OT c dout w) as [w1 crc] eqn:Hcb.
+      apply dz_callback_clean in Hcb; auto. destruct Hcb as (Hm1 & He1 & Hb1 & Hok1). unfold dz_len in Hb1.
+      destruct (negb (crc =? c_HTP_OK)) eqn:Hcrc.
+      - destruct (dz_end OT ask l w1) as [l2 w2] eqn:Hend. apply dz_end_spec in Hend. destruct Hend as (He2 & Hm2 & Ho2 & Hp2 & Hz2).
+        inversion Hx; subst; clear Hx. repeat split; try congruence; try lia.
+        all: try (constructor; auto; unfold dz_wf in *; congruence).
+        all: try (intros Hx; subst r; rewrite Z.eqb_refl in Hcrc; discriminate).
+      - apply negb_false_iff, Z.eqb_eq in Hcrc. inversion Hx; subst; clear Hx. repeat split; auto; try lia. }
+    destruct rest as [|l2 r2].
+    - apply Hcbk in H; auto. intuition discriminate.
+    - destruct (negb (dz_zinit l =? 0)).
+      + destruct (next (l2 :: r2) dout w) as [[rest1 w1] r1] eqn:Hnx. inversion H; subst; clear H.
+        pose proof (Hnext _ _ _ _ _ _ Hnx Hr Hdout Hc) as (Hm1 & Hr1 & He1 & Hb1 & Hok1).
+        repeat split; auto; try lia; try discriminate.
+      + apply Hcbk in H; auto. intuition discriminate. }
+  destruct (dz_enter d 0) as [input|].
+  - assert (Hg : dz_good w l rest w). { unfold dz_good. repeat split; auto; lia. }
+    pose proof (dz_loop_spec B w d (dc_fuel c) l rest w input 0 HB HdB Hg) as Hl.
+    destruct (dz_loop OT ask c next (dc_fuel c) d l rest w input 0) as [[[l1 rest1] w1] r1].
+    inversion H; subst; clear H.
+    destruct Hl as (Hwf1 & Hr1 & Hm1 & He1 & Hb1 & Hok1 & Hdead).
+    repeat split; auto.
+    + constructor; auto. destruct (dd_bytes d); auto.
+    + intros _ _. destruct Hdead as [Hcl|Hd]; [left; exact Hcl|right].
+      cbn [dz_head_dead]. destruct (dd_bytes d); wsimpl; auto.
+  - inversion H; subst; clear H. pose proof Hc as Hc'. unfold dz_clean in Hc'. repeat split; auto; try lia.
+    all: try (intros Hx; exfalso; apply dz_ok_ne_error; exact Hx).
+Qed.
 End OneLayer.
+
+(* ---- the whole chain, any depth *)
+Lemma dz_decompress_next_ok n : dz_next_ok (dz_decompress OT ask c n).
+Proof.
+  assert (Htriv : forall ls (w : world), Forall dz_wf ls -> dz_clean w ->
+     w_message OT w = w_message OT w /\ Forall dz_wf ls /\ w_entity OT w <= w_entity OT w /\
+     w_entity OT w <= dz_M w + Z.of_nat dz_BUF /\ (c_HTP_ERROR = c_HTP_OK -> dz_clean w)).
+  { intros ls w Hls Hc. unfold dz_clean in Hc. pose proof dz_BUF_val. repeat split; auto; try lia. }
+  induction n as [|n IH]; unfold dz_next_ok; intros ls d w ls' w' rc H Hls Hd Hc; cbn [dz_decompress] in H.
+  - inversion H; subst. apply Htriv; auto.
+  - destruct ls as [|l rest].
+    + inversion H; subst. apply Htriv; auto.
+    + inversion Hls; subst.
+      eapply (dz_layer_run_spec _ IH (Z.of_nat dz_BUF)) in H; eauto; try lia.
+      * destruct H as (?&?&?&?&?&?). repeat split; auto.
+      * unfold dz_len. lia.
+Qed.
+
+(* ---- a layer that is shut down (zlib_initialized = 0, no passthrough): only what is still in its buffer can come out *)
+Lemma dz_lzma_ne_0 : (0 =? c_dz_COMPRESSION_LZMA) = false.
+Proof. reflexivity. Qed.
+
+Lemma dz_dead_run next l rest d (w : world) ls' w' r :
+  dz_layer_run OT ask c next l rest d w = (ls', w', r) -> dz_pass l = false -> dz_zinit l = 0 ->
+  w_message OT w' = w_message OT w /\ w_entity OT w <= w_entity OT w' /\
+  exists l', ls' = l' :: rest /\ dz_zinit l' = 0 /\ dz_pass l' = false /\ (dz_wf l -> dz_wf l') /\
+    (if dd_null d then w_entity OT w' <= w_entity OT w + Z.of_nat (length (dz_obuf l))
+     else w_entity OT w' + Z.of_nat (length (dz_obuf l')) <= w_entity OT w + Z.of_nat (length (dz_obuf l))).
+Proof.
+  intros H Hp Hz. unfold dz_layer_run in H. rewrite Hp in H.
+  assert (Hdel : forall dd, dz_deliver OT c next l rest dd w = (let '(w0, rc) := dz_callback OT c dd w in (rest, w0, rc))).
+  { intros dd. unfold dz_deliver. rewrite Hz. cbn. destruct rest; reflexivity. }
+  assert (Hend : forall w0, dz_end OT ask l w0 = (l, w0)).
+  { intros w0. unfold dz_end. rewrite Hz. reflexivity. }
+  destruct (dd_null d) eqn:Hn.
+  { set (dout := match dz_obuf l with [] => dz_null | _ :: _ => dz_some (dz_obuf l) end) in H.
+    assert (Hlen : dz_len dout = Z.of_nat (length (dz_obuf l))).
+    { subst dout. unfold dz_len. destruct (dz_obuf l); reflexivity. }
+    assert (Hx : (let '(w0, crc) := dz_callback OT c dout w in
+                  if negb (crc =? c_HTP_OK) then let '(l0, w1) := dz_end OT ask l w0 in (l0 :: rest, w1, crc) else (l :: rest, w0, c_HTP_OK)) = (ls', w', r)).
+    { destruct rest as [|l2 r2]; [exact H|]. rewrite Hz in H. cbn in H. exact H. }
+    clear H. destruct (dz_callback OT c dout w) as [w1 crc] eqn:Hcb. apply dz_callback_spec in Hcb. destruct Hcb as (Hm1 & He1 & _).
+    rewrite Hend in Hx. pose proof (dz_len_nonneg dout).
+    destruct (negb (crc =? c_HTP_OK)); inversion Hx; subst; (split; [auto|split; [lia|]]); exists l; repeat split; auto; lia. }
+  destruct (dz_enter d 0) as [input|].
+  2:{ inversion H; subst. split; auto. split; [lia|]. exists l. repeat split; auto. lia. }
+  assert (Hloop : exists l1 w1 r1, dz_loop OT ask c next (dc_fuel c) d l rest w input 0 = (l1, rest, w1, r1) /\
+            w_message OT w1 = w_message OT w /\ w_entity OT w <= w_entity OT w1 /\ dz_zinit l1 = 0 /\ dz_pass l1 = false /\ (dz_wf l -> dz_wf l1) /\
+            w_entity OT w1 + Z.of_nat (length (dz_obuf l1)) <= w_entity OT w + Z.of_nat (length (dz_obuf l))).
+  { destruct (dc_fuel c) as [|f]; cbn [dz_loop].
+    { exists l, w, c_HTP_ERROR. repeat split; auto; lia. }
+    destruct input as [|b input'].
+    { exists l, w, c_HTP_OK. repeat split; auto; lia. }
+    unfold dz_iter, dz_flush_full. rewrite Hdel.
+    destruct (dz_avail_out l =? 0)%nat.
+    - destruct (dz_callback OT c (dz_some (dz_obuf l)) w) as [w1 crc] eqn:Hcb. apply dz_callback_spec in Hcb. destruct Hcb as (Hm1 & He1 & _).
+      unfold dz_len in He1. cbn [dd_bytes dz_some] in He1.
+      destruct (negb (crc =? c_HTP_OK)).
+      + rewrite Hend. exists (dz_set_obuf l []), w1, crc. wsimpl. cbn [length]. repeat split; auto using dz_wf_reset; lia.
+      + unfold dz_decode. wsimpl. rewrite Hz. rewrite dz_lzma_ne_0. cbn [negb Z.eqb].
+        exists (dz_set_obuf l []), w1, c_HTP_ERROR. wsimpl. cbn [length]. repeat split; auto using dz_wf_reset; lia.
+    - unfold dz_decode. rewrite Hz. rewrite dz_lzma_ne_0. cbn [negb Z.eqb].
+      exists l, w, c_HTP_ERROR. repeat split; auto; lia. }
+  destruct Hloop as (l1 & w1 & r1 & Hl & Hm1 & He1 & Hz1 & Hp1 & Hwf1 & Hb1). rewrite Hl in H. inversion H; subst; clear H.
+  split; auto. split; auto.
+  exists (match dd_bytes d with [] => l1 | _ :: _ => dz_set_fed l1 true end).
+  destruct (dd_bytes d); wsimpl; repeat split; auto.
+Qed.
+
+(* ---- a layer in passthrough hands the block to the callback *)
+Lemma dz_pass_run next l rest d (w : world) ls' w' r :
+  dz_layer_run OT ask c next l rest d w = (ls', w', r) -> dz_pass l = true ->
+  ls' = l :: rest /\ w_message OT w' = w_message OT w /\ w_entity OT w' = w_entity OT w + dz_len d.
+Proof.
+  intros H Hp. unfold dz_layer_run in H. rewrite Hp in H.
+  destruct (dz_callback OT c d w) as [w1 crc] eqn:Hcb. apply dz_callback_spec in Hcb. destruct Hcb as (Hm1 & He1 & _).
+  inversion H; subst. auto.
+Qed.
+
+(* ---- the invariant between two body calls *)
+Variable maxchunk : Z.                       (* no body call carries more than maxchunk bytes *)
+Definition dz_maxB : Z := Z.max (Z.of_nat dz_BUF) maxchunk.
+Definition dz_K : Z := dz_maxB + Z.of_nat dz_BUF.
+
+(* passthrough adds the same amount to entity_len and message_len: this is what survives *)
+Definition dz_J (w : world) : Prop :=
+  w_entity OT w <= R * w_message OT w + dz_K \/ w_entity OT w - w_message OT w <= dc_bomb c + dz_K.
+
+Definition dz_inv_chain (ls : list dz_layer) (w : world) : Prop :=
+  match ls with
+  | [] => dz_J w
+  | l :: _ => if dz_pass l then dz_J w
+              else if dz_zinit l =? 0 then w_entity OT w + Z.of_nat (length (dz_obuf l)) <= dz_M w + dz_K
+              else dz_clean w
+  end.
+
+Definition dz_inv (t : dz_tx OT) : Prop :=
+  let w := tx_w OT t in
+  0 <= w_message OT w /\ Forall dz_wf (tx_chain OT t) /\
+  if dz_is_coded (tx_cep OT t) then dz_inv_chain (tx_chain OT t) w else w_entity OT w <= w_message OT w.
+
+Lemma dz_K_bounds : 0 <= Z.of_nat dz_BUF /\ Z.of_nat dz_BUF <= dz_maxB /\ dz_maxB + Z.of_nat dz_BUF = dz_K /\ maxchunk <= dz_maxB.
+Proof. unfold dz_K, dz_maxB. lia. Qed.
+
+Lemma dz_J_of_bound (w : world) k : 0 <= w_message OT w -> k <= dz_K -> w_entity OT w <= dz_M w + k -> dz_J w.
+Proof. unfold dz_J, dz_M. intros. lia. Qed.
+
+Lemma dz_J_of_clean (w : world) : 0 <= w_message OT w -> dz_clean w -> dz_J w.
+Proof. intros Hm Hc. pose proof dz_K_bounds. apply (dz_J_of_bound w 0); auto; unfold dz_clean in Hc; lia. Qed.
+
+Lemma dz_inv_chain_J ls (w : world) : 0 <= w_message OT w -> dz_inv_chain ls w -> dz_J w.
+Proof.
+  intros Hm H. destruct ls as [|l r]; cbn [dz_inv_chain] in H; auto.
+  destruct (dz_pass l); auto. destruct (dz_zinit l =? 0).
+  - apply (dz_J_of_bound w dz_K); auto; lia.
+  - apply dz_J_of_clean; auto.
+Qed.
+
+(* the state a call from a live or any other state leaves behind *)
+Lemma dz_inv_chain_of_post ls (w : world) :
+  0 <= w_message OT w -> Forall dz_wf ls -> w_entity OT w <= dz_M w + dz_maxB -> (dz_clean w \/ dz_head_dead ls) ->
+  dz_inv_chain ls w.
+Proof.
+  intros Hm Hwf Hb Hd. pose proof dz_K_bounds as (HK0 & HK1 & HK2 & HK3).
+  destruct ls as [|l r]; cbn [dz_inv_chain].
+  - apply (dz_J_of_bound w dz_maxB); auto; lia.
+  - inversion Hwf; subst. unfold dz_wf in *.
+    destruct (dz_pass l) eqn:Hp.
+    + apply (dz_J_of_bound w dz_maxB); auto; lia.
+    + destruct (dz_zinit l =? 0) eqn:Hz; [lia|].
+      destruct Hd as [Hc|Hd]; auto. cbn [dz_head_dead] in Hd. destruct Hd as [Hz' _]. rewrite Hz' in Hz. discriminate.
+Qed.
+
+Definition dz_apply_tpass (b : bool) (ls : list dz_layer) : list dz_layer :=
+  match ls with l :: r => (if b then dz_set_pass l true else l) :: r | [] => [] end.
+
+Lemma dz_inv_chain_tpass b ls (w : world) : 0 <= w_message OT w -> dz_inv_chain ls w -> dz_inv_chain (dz_apply_tpass b ls) w.
+Proof.
+  intros Hm H. destruct b; destruct ls as [|l r]; cbn [dz_apply_tpass]; auto.
+  cbn [dz_inv_chain]. wsimpl. eapply dz_inv_chain_J; eauto.
+Qed.
+
+Lemma dz_wf_tpass b ls : Forall dz_wf ls -> Forall dz_wf (dz_apply_tpass b ls).
+Proof. intros H. destruct ls; cbn; auto. inversion H; subst. constructor; auto. destruct b; auto. Qed.
+
+Lemma dz_destroy_spec ls : forall (w : world), w_entity OT (dz_destroy OT ask ls w) = w_entity OT w /\ w_message OT (dz_destroy OT ask ls w) = w_message OT w.
+Proof.
+  induction ls as [|l r IH]; intros w; cbn [dz_destroy]; auto.
+  destruct (dz_end OT ask l w) as [l1 w1] eqn:He. apply dz_end_spec in He. destruct He as (He & Hm & _). destruct (IH w1). split; congruence.
+Qed.
+
+Lemma dz_J_transfer (w w' : world) : dz_J w -> w_entity OT w' = w_entity OT w -> w_message OT w' = w_message OT w -> dz_J w'.
+Proof. unfold dz_J. intros H He Hm. rewrite He, Hm. exact H. Qed.
+
+Lemma dz_inv_chain_transfer ls (w w' : world) : dz_inv_chain ls w -> w_entity OT w' = w_entity OT w -> w_message OT w' = w_message OT w -> dz_inv_chain ls w'.
+Proof.
+  intros H He Hm. destruct ls as [|l r]; cbn [dz_inv_chain] in *; [eapply dz_J_transfer; eauto|].
+  destruct (dz_pass l); [eapply dz_J_transfer; eauto|]. destruct (dz_zinit l =? 0).
+  - rewrite He, (dz_M_eq w w' Hm). exact H.
+  - eapply dz_clean_transfer; eauto.
+Qed.
+
+(* message_len grows (by the block and by framing bytes): every state survives *)
+Lemma dz_inv_chain_msg ls (w : world) m : 0 <= m -> dz_inv_chain ls w -> dz_inv_chain ls (w_set_message OT w (w_message OT w + m)).
+Proof.
+  intros Hm H. pose proof dz_bomb_ratio_ge as HR.
+  assert (HM : dz_M w <= dz_M (w_set_message OT w (w_message OT w + m))). { unfold dz_M. wsimpl. nia. }
+  assert (HJ : dz_J w -> dz_J (w_set_message OT w (w_message OT w + m))). { unfold dz_J. wsimpl. intros [H1|H1]; [left; nia|right; lia]. }
+  destruct ls as [|l r]; cbn [dz_inv_chain] in *; auto.
+  destruct (dz_pass l); auto. destruct (dz_zinit l =? 0).
+  - wsimpl. lia.
+  - unfold dz_clean in *. wsimpl. lia.
+Qed.
+
+Lemma dz_process_body_data_inv (t : dz_tx OT) extra data :
+  dz_inv t -> 0 <= extra -> (match data with Some b => Z.of_nat (length b) <= maxchunk | None => True end) ->
+  dz_inv (fst (dz_process_body_data OT ask c t extra data)).
+Proof.
+  intros (Hmsg & Hwf & Hinv) Hex Hlen. unfold dz_process_body_data. cbv zeta.
+  set (d := dz_data_of data).
+  assert (Hd0 : 0 <= dz_len d) by apply dz_len_nonneg.
+  assert (HdB : dz_len d <= dz_maxB).
+  { pose proof dz_K_bounds. subst d. destruct data; unfold dz_len, dz_data_of; cbn [dd_bytes dz_some dz_null length]; lia. }
+  set (w1 := w_set_message OT (tx_w OT t) (w_message OT (tx_w OT t) + extra + dz_len d)).
+  assert (Hmsg1 : 0 <= w_message OT w1) by (subst w1; wsimpl; lia).
+  pose proof dz_K_bounds as (HK0 & HK1 & HK2 & HK3). pose proof dz_bomb_ratio_ge as HR.
+  destruct (dz_is_coded (tx_cep OT t)) eqn:Hcoded.
+  2:{ destruct (tx_cep OT t =? c_dz_COMPRESSION_NONE).
+      - destruct (dz_run_hook OT c d (w_set_entity OT w1 (w_entity OT w1 + dz_len d))) as [w2 rc] eqn:Hh.
+        apply dz_run_hook_spec in Hh. destruct Hh as [He2 Hm2]. cbn [fst]. unfold dz_inv. cbn [tx_w tx_chain tx_cep]. rewrite Hcoded.
+        subst w1; wsimpl. repeat split; auto; lia.
+      - cbn [fst]. unfold dz_inv. cbn [tx_w tx_chain tx_cep]. rewrite Hcoded. subst w1; wsimpl. repeat split; auto; lia. }
+  destruct (tx_chain OT t) as [|l rest] eqn:Hch.
+  { cbn [fst]. unfold dz_inv. cbn [tx_w tx_chain tx_cep]. rewrite Hcoded. repeat split; auto.
+    cbn [dz_inv_chain] in *. subst w1. replace (w_message OT (tx_w OT t) + extra + dz_len d) with (w_message OT (tx_w OT t) + (extra + dz_len d)) by lia.
+    apply (dz_inv_chain_msg [] (tx_w OT t)); auto; lia. }
+  (* the chain exists *)
+  assert (Hinv1 : dz_inv_chain (l :: rest) w1).
+  { subst w1. replace (w_message OT (tx_w OT t) + extra + dz_len d) with (w_message OT (tx_w OT t) + (extra + dz_len d)) by lia.
+    apply dz_inv_chain_msg; auto; lia. }
+  unfold dz_gettimeofday at 1.
+  set (w2 := w_set_nbcb OT (w_set_tbefore OT (w_tick_clock OT w1) (dc_clock c (w_nclock OT w1))) 0).
+  assert (He2 : w_entity OT w2 = w_entity OT w1) by reflexivity.
+  assert (Hm2 : w_message OT w2 = w_message OT w1) by reflexivity.
+  assert (Hinv2 : dz_inv_chain (l :: rest) w2) by (eapply dz_inv_chain_transfer; eauto).
+  cbn [length dz_decompress].
+  destruct (dz_layer_run OT ask c (dz_decompress OT ask c (length rest)) l rest d w2) as [[chain w3] r3] eqn:Hrun.
+  (* what the call leaves: the invariant of the chain in the world right after decompress *)
+  assert (Hafter : w_message OT w3 = w_message OT w2 /\ Forall dz_wf chain /\
+                   (match data with Some _ => dz_inv_chain chain w3 | None => dz_J w3 end)).
+  { inversion Hwf; subst. cbn [dz_inv_chain] in Hinv2.
+    destruct (dz_pass l) eqn:Hp.
+    - (* passthrough *)
+      apply dz_pass_run in Hrun; auto. destruct Hrun as (Hc3 & Hm3 & He3). subst chain. split; auto. split; auto.
+      assert (HJ3 : dz_J w3).
+      { cbn [dz_inv_chain] in Hinv. rewrite Hp in Hinv. unfold dz_J in *. rewrite He3, Hm3, He2, Hm2. subst w1. wsimpl.
+        destruct Hinv as [HJa|HJa]; [left; nia|right; lia]. }
+      destruct data; auto. cbn [dz_inv_chain]. rewrite Hp. exact HJ3.
+    - destruct (dz_zinit l =? 0) eqn:Hz.
+      + (* shut down *)
+        apply Z.eqb_eq in Hz. apply dz_dead_run in Hrun; auto.
+        destruct Hrun as (Hm3 & He3 & l' & Hc3 & Hz3 & Hp3 & Hwf3 & Hb3). subst chain. split; auto. split; [constructor; auto|].
+        destruct data; cbn [d dz_data_of dd_null dz_some dz_null] in Hb3.
+        * cbn [dz_inv_chain]. rewrite Hp3, Hz3. cbn [Z.eqb]. rewrite (dz_M_eq w2 w3 Hm3). lia.
+        * apply (dz_J_of_bound w3 dz_K); try lia. rewrite (dz_M_eq w2 w3 Hm3). lia.
+      + (* live and clean *)
+        pose proof (dz_decompress_next_ok (length rest)) as Hnx.
+        eapply (dz_layer_run_spec _ Hnx dz_maxB) in Hrun; eauto; try lia.
+        destruct Hrun as (Hm3 & Hwf3 & He3 & Hb3 & Hok3 & Hdead3). split; auto. split; auto.
+        rewrite <- (dz_M_eq w2 w3 Hm3) in Hb3.
+        destruct data.
+        * apply dz_inv_chain_of_post; auto; try lia.
+        * apply (dz_J_of_bound w3 dz_maxB); try lia. }
+  destruct Hafter as (Hm3 & Hwf3 & Hpost).
+  unfold dz_gettimeofday.
+  set (w4 := match dz_timer_track _ _ _ with Some sp => _ | None => _ end).
+  assert (Hw4 : w_entity OT w4 = w_entity OT w3 /\ w_message OT w4 = w_message OT w3).
+  { subst w4. destruct (dz_timer_track _ _ _) as [sp|]; [destruct (sp >? dc_tlimit c)|]; wsimpl; auto. }
+  destruct Hw4 as [He4 Hm4].
+  fold (dz_apply_tpass (w_tpass OT w4) chain).
+  destruct data; cbn [fst]; unfold dz_inv; cbn [tx_w tx_chain tx_cep]; rewrite Hcoded; wsimpl.
+  - repeat split; [congruence | apply dz_wf_tpass; auto |].
+    eapply dz_inv_chain_transfer with (w := w4); [|reflexivity|reflexivity].
+    apply dz_inv_chain_tpass; [congruence|]. eapply dz_inv_chain_transfer; eauto.
+  - destruct (dz_destroy_spec (dz_apply_tpass (w_tpass OT w4) chain) (w_set_tpass OT w4 false)) as [He5 Hm5]. wsimpl.
+    repeat split; [congruence | constructor |]. cbn [dz_inv_chain].
+    eapply dz_J_transfer; [exact Hpost| |]; congruence.
+Qed.
+
+(* ---- the chain built from the headers: nothing delivered yet, all buffers empty *)
+Definition dz_fresh (l : dz_layer) : Prop := dz_obuf l = [].
+
+Lemma dz_create_spec fmt (w : world) ol w' :
+  dz_create OT ask c fmt w = (ol, w') ->
+  w_entity OT w' = w_entity OT w /\ w_message OT w' = w_message OT w /\ (forall l, ol = Some l -> dz_fresh l).
+Proof.
+  unfold dz_create, dz_fresh.
+  destruct (fmt =? c_dz_COMPRESSION_LZMA).
+  { destruct ((dc_lzma_mem c >? 0) && (dc_lzma_layers c >? 0)); intros H; inversion H; subst; repeat split; auto; intros l Hl; inversion Hl; reflexivity. }
+  destruct (fmt =? c_dz_COMPRESSION_DEFLATE).
+  { destruct (dz_ask OT ask w _) as [a w1] eqn:Ha. apply dz_ask_spec in Ha. destruct Ha as (He1 & Hm1 & _).
+    destruct (negb (da_rc a =? c_dz_Z_OK)).
+    - destruct (dz_ask OT ask w1 QEnd) as [a2 w2] eqn:Ha2. apply dz_ask_spec in Ha2. destruct Ha2 as (He2 & Hm2 & _).
+      intros H; inversion H; subst; repeat split; try congruence.
+    - intros H; inversion H; subst; repeat split; auto. intros l Hl; inversion Hl; reflexivity. }
+  destruct (fmt =? c_dz_COMPRESSION_GZIP).
+  { destruct (dz_ask OT ask w _) as [a w1] eqn:Ha. apply dz_ask_spec in Ha. destruct Ha as (He1 & Hm1 & _).
+    destruct (negb (da_rc a =? c_dz_Z_OK)).
+    - destruct (dz_ask OT ask w1 QEnd) as [a2 w2] eqn:Ha2. apply dz_ask_spec in Ha2. destruct Ha2 as (He2 & Hm2 & _).
+      intros H; inversion H; subst; repeat split; try congruence.
+    - intros H; inversion H; subst; repeat split; auto. intros l Hl; inversion Hl; reflexivity. }
+  intros H; inversion H; subst; repeat split; auto. discriminate.
+Qed.
+
+Lemma dz_tokens_spec fuel : forall input layers nblzma chain cep (w : world),
+  Forall dz_fresh chain ->
+  let t := dz_tokens OT ask c fuel input layers nblzma chain cep w in
+  w_entity OT (tx_w OT t) = w_entity OT w /\ w_message OT (tx_w OT t) = w_message OT w /\ Forall dz_fresh (tx_chain OT t).
+Proof.
+  induction fuel as [|f IH]; intros input layers nblzma chain cep w Hch; cbn [dz_tokens]; [cbn; auto|].
+  destruct input as [|b input']; [cbn; auto|].
+  destruct (dz_get_token (b :: input')) as [tok|]; [|cbn; auto].
+  destruct (negb (dc_layers c =? 0) && (layers + 1 >? dc_layers c)); [cbn; auto|].
+  set (cs := if negb (index_of_mem_nocase tok s_gzip =? -1) then _ else _).
+  destruct cs as [cetype stop]. destruct stop; [cbn; auto|].
+  assert (Hnext : forall chain' cep' (w' : world), Forall dz_fresh chain' -> w_entity OT w' = w_entity OT w -> w_message OT w' = w_message OT w ->
+     let t := (if (length (b :: input') <=? S (length tok))%nat then mk_dz_tx OT chain' cep' w' false
+               else dz_tokens OT ask c f (skipn (S (length tok)) (b :: input'))
+                      (if negb (dc_layers c =? 0) then layers + 1 else layers) (nblzma + 1) chain' cep' w') in
+     w_entity OT (tx_w OT t) = w_entity OT w /\ w_message OT (tx_w OT t) = w_message OT w /\ Forall dz_fresh (tx_chain OT t)).
+  { intros chain' cep' w' Hc' He' Hm'. destruct (length (b :: input') <=? S (length tok))%nat; [cbn; auto|].
+    destruct (IH (skipn (S (length tok)) (b :: input')) (if negb (dc_layers c =? 0) then layers + 1 else layers) (nblzma + 1) chain' cep' w' Hc') as (?&?&?).
+    repeat split; auto; congruence. }
+  destruct (negb (cetype =? c_dz_COMPRESSION_NONE)); [|apply Hnext; auto].
+  destruct chain as [|l0 r0].
+  - destruct (dz_create OT ask c cetype w) as [[l|] w1] eqn:Hcr; apply dz_create_spec in Hcr; destruct Hcr as (He1 & Hm1 & Hf1).
+    + apply Hnext; auto.
+    + cbn. auto.
+  - destruct (dz_create OT ask c cetype w) as [[l|] w1] eqn:Hcr; apply dz_create_spec in Hcr; destruct Hcr as (He1 & Hm1 & Hf1).
+    + apply Hnext; auto. apply Forall_app. split; auto.
+    + cbn. auto.
+Qed.
+
+Lemma dz_response_headers_spec ce (w : world) :
+  let t := dz_response_headers OT ask c ce w in
+  w_entity OT (tx_w OT t) = w_entity OT w /\ w_message OT (tx_w OT t) = w_message OT w /\ Forall dz_fresh (tx_chain OT t).
+Proof.
+  unfold dz_response_headers.
+  set (cm := match ce with None => _ | Some v => _ end). destruct cm as [coding multi].
+  set (cm2 := if dc_enabled c then (coding, multi) else (c_dz_COMPRESSION_NONE, false)). destruct cm2 as [cep multi2].
+  destruct ((cep =? c_dz_COMPRESSION_GZIP) || (cep =? c_dz_COMPRESSION_DEFLATE) || (cep =? c_dz_COMPRESSION_LZMA) || multi2); [|cbn; auto].
+  destruct (negb multi2).
+  - destruct (dz_create OT ask c cep w) as [[l|] w1] eqn:Hcr; apply dz_create_spec in Hcr; destruct Hcr as (He1 & Hm1 & Hf1); cbn; auto.
+  - destruct ce as [v|]; [|cbn; auto]. apply dz_tokens_spec. constructor.
+Qed.
+
+Lemma dz_inv_initial (t : dz_tx OT) :
+  0 <= maxchunk -> w_entity OT (tx_w OT t) = 0 -> w_message OT (tx_w OT t) = 0 -> Forall dz_fresh (tx_chain OT t) -> dz_inv t.
+Proof.
+  intros Hmc He Hm Hf. pose proof dz_K_bounds as (HK0 & HK1 & HK2 & HK3). pose proof dz_bomb_ratio_ge as HR.
+  unfold dz_inv. split; [lia|]. split.
+  - eapply Forall_impl; [|exact Hf]. intros l Hl. unfold dz_wf, dz_fresh in *. rewrite Hl. cbn. lia.
+  - destruct (dz_is_coded (tx_cep OT t)); [|lia].
+    destruct (tx_chain OT t) as [|l r]; cbn [dz_inv_chain].
+    + unfold dz_J. lia.
+    + inversion Hf; subst. unfold dz_fresh in *.
+      destruct (dz_pass l); [unfold dz_J; lia|]. destruct (dz_zinit l =? 0).
+      * rewrite H1. unfold dz_M. cbn [length]. lia.
+      * unfold dz_clean, dz_M. lia.
+Qed.
+
+Definition dz_calls_ok (calls : list (Z * option bytes)) : Prop :=
+  Forall (fun ed => 0 <= fst ed /\ match snd ed with Some b => Z.of_nat (length b) <= maxchunk | None => True end) calls.
+
+Lemma dz_calls_inv calls : forall (t : dz_tx OT), dz_inv t -> dz_calls_ok calls -> dz_inv (dz_calls OT ask c t calls).
+Proof.
+  induction calls as [|[extra d] r IH]; intros t Hi Hc; cbn [dz_calls]; auto.
+  inversion Hc; subst. cbn [fst snd] in *. apply IH; auto. apply dz_process_body_data_inv; tauto.
+Qed.
+
+(* what the invariant means for the counters *)
+Lemma dz_J_bound (w : world) :
+  0 <= w_message OT w -> dz_J w ->
+  w_entity OT w <= dz_M w + dz_K + Z.max 0 (dc_bomb c) / (R - 1).
+Proof.
+  intros Hm HJ. pose proof dz_bomb_ratio_ge as HR. unfold dz_J, dz_M in *.
+  assert (Hs : 0 <= Z.max 0 (dc_bomb c) / (R - 1)) by (apply Z.div_pos; lia).
+  destruct HJ as [H|H]; [lia|].
+  destruct (Z_le_gt_dec ((R - 1) * w_message OT w) (Z.max 0 (dc_bomb c))) as [Hle|Hgt].
+  - assert (w_message OT w <= Z.max 0 (dc_bomb c) / (R - 1)) by (apply Z.div_le_lower_bound; lia). lia.
+  - nia.
+Qed.
+
+Lemma dz_inv_bound (t : dz_tx OT) :
+  dz_inv t -> w_entity OT (tx_w OT t) <= dz_M (tx_w OT t) + dz_K + Z.max 0 (dc_bomb c) / (R - 1).
+Proof.
+  intros (Hm & Hwf & H). pose proof dz_bomb_ratio_ge as HR. pose proof dz_K_bounds as (HK0 & HK1 & HK2 & HK3).
+  assert (Hs : 0 <= Z.max 0 (dc_bomb c) / (R - 1)) by (apply Z.div_pos; lia).
+  destruct (dz_is_coded (tx_cep OT t)).
+  - apply dz_J_bound; auto. eapply dz_inv_chain_J; eauto.
+  - unfold dz_M. nia.
+Qed.
+
+Theorem dz_bomb_bound_general ce calls (o : OT) :
+  0 <= maxchunk -> dz_calls_ok calls ->
+  let w := tx_w OT (fst (dz_run OT ask c ce calls o)) in
+  w_entity OT w <= Z.max (dc_bomb c) (2048 * w_message OT w) + Z.max 8192 maxchunk + 8192 + Z.max 0 (dc_bomb c) / (R - 1).
+Proof.
+  intros Hmc Hcalls. unfold dz_run. cbn [fst tx_w].
+  set (t0 := dz_response_headers OT ask c ce (dz_world0 OT o)).
+  pose proof (dz_response_headers_spec ce (dz_world0 OT o)) as (He0 & Hm0 & Hf0). fold t0 in He0, Hm0, Hf0.
+  assert (Hi0 : dz_inv t0) by (apply dz_inv_initial; auto).
+  pose proof (dz_calls_inv calls t0 Hi0 Hcalls) as Hi. set (t := dz_calls OT ask c t0 calls) in *.
+  destruct (dz_destroy_spec (tx_chain OT t) (tx_w OT t)) as [He Hm]. rewrite He, Hm.
+  pose proof (dz_inv_bound t Hi) as Hb. destruct Hi as (Hmsg & _ & _).
+  pose proof dz_bomb_ratio_le as HR. pose proof dz_BUF_val as HBV. rewrite dz_buf_size in HBV.
+  unfold dz_M, dz_K, dz_maxB in Hb. rewrite HBV in Hb.
+  assert (R * w_message OT (tx_w OT t) <= 2048 * w_message OT (tx_w OT t)) by nia. lia.
+Qed.
+
+(* ---- entity_len IS the number of bytes handed to the body-data hook *)
+Definition dz_evsum (w : world) : Z := fold_right (fun e a => dz_len e + a) 0 (w_events OT w).
+Definition dz_D (w : world) : Z := w_entity OT w - dz_evsum w.
+
+Lemma dz_D_frame (w w' : world) : w_entity OT w' = w_entity OT w -> w_events OT w' = w_events OT w -> dz_D w' = dz_D w.
+Proof. unfold dz_D, dz_evsum. intros -> ->. reflexivity. Qed.
+
+Lemma dz_ask_D (w : world) q : dz_D (snd (dz_ask OT ask w q)) = dz_D w.
+Proof. unfold dz_ask. destruct (ask (w_o OT w) q). cbn [snd]. apply dz_D_frame; reflexivity. Qed.
+
+Lemma dz_cb_clock_D (w : world) : dz_D (dz_cb_clock OT c w) = dz_D w.
+Proof.
+  unfold dz_cb_clock, dz_gettimeofday. destruct (w_nbcb OT w mod c_HTP_COMPRESSION_TIME_FREQ_TEST =? 0); auto.
+  destruct (dz_timer_track _ _ _) as [sp|]; [destruct (sp >? dc_tlimit c)|]; apply dz_D_frame; reflexivity.
+Qed.
+
+Lemma dz_run_hook_D d (w : world) : dz_D (fst (dz_run_hook OT c d w)) = dz_D w - (if negb (dd_null d) && (dz_len d =? 0) then 0 else dz_len d).
+Proof.
+  unfold dz_run_hook. destruct (negb (dd_null d) && (dz_len d =? 0)); cbn [fst]; [lia|].
+  unfold dz_D, dz_evsum. wsimpl. cbn [fold_right]. lia.
+Qed.
+
+Lemma dz_callback_D d (w : world) : dz_D (fst (dz_callback OT c d w)) = dz_D w.
+Proof.
+  unfold dz_callback.
+  pose proof (dz_run_hook_D d (w_set_entity OT w (w_entity OT w + dz_len d))) as Hh.
+  destruct (dz_run_hook OT c d (w_set_entity OT w (w_entity OT w + dz_len d))) as [w1 hrc]. cbn [fst] in Hh.
+  assert (H1 : dz_D w1 = dz_D w).
+  { rewrite Hh. unfold dz_D at 1, dz_evsum. wsimpl. fold (dz_evsum w). unfold dz_D.
+    destruct (negb (dd_null d) && (dz_len d =? 0)) eqn:Hz; [|lia].
+    apply andb_true_iff in Hz. destruct Hz as [_ Hz]. apply Z.eqb_eq in Hz. lia. }
+  destruct (negb (hrc =? c_HTP_OK)); [exact H1|].
+  set (w3 := dz_cb_clock OT c (w_set_nbcb OT w1 (w_nbcb OT w1 + 1))).
+  assert (H3 : dz_D w3 = dz_D w). { subst w3. rewrite dz_cb_clock_D. rewrite <- H1. apply dz_D_frame; reflexivity. }
+  destruct ((w_entity OT w3 >? dc_bomb c) && (w_entity OT w3 >? R * w_message OT w3)); exact H3.
+Qed.
+
+Lemma dz_end_D l (w : world) : dz_D (snd (dz_end OT ask l w)) = dz_D w.
+Proof.
+  unfold dz_end. destruct (dz_zinit l =? c_dz_COMPRESSION_LZMA).
+  - pose proof (dz_ask_D w QLzFree). destruct (dz_ask OT ask w QLzFree). exact H.
+  - destruct (negb (dz_zinit l =? 0)); auto. pose proof (dz_ask_D w QEnd). destruct (dz_ask OT ask w QEnd). exact H.
+Qed.
+
+Lemma dz_fail_end_D l (w : world) : dz_D (snd (dz_fail_end OT ask l w)) = dz_D w.
+Proof.
+  unfold dz_fail_end. destruct (dz_zinit l =? c_dz_COMPRESSION_LZMA).
+  - pose proof (dz_ask_D w QLzFree). destruct (dz_ask OT ask w QLzFree). exact H.
+  - pose proof (dz_ask_D w QEnd). destruct (dz_ask OT ask w QEnd). exact H.
+Qed.
+
+Lemma dz_restart_dec_D l data (w : world) : dz_D (snd (fst (dz_restart_dec OT ask l data w))) = dz_D w.
+Proof.
+  unfold dz_restart_dec. destruct (dz_restart l <? 3)%nat; auto.
+  destruct (dz_restart l =? 0)%nat.
+  { match goal with |- context [dz_ask OT ask w ?q] => pose proof (dz_ask_D w q) as H; destruct (dz_ask OT ask w q) as [a w1] end.
+    destruct (negb (da_rc a =? c_dz_Z_OK)); exact H. }
+  destruct (dz_zinit l =? c_dz_COMPRESSION_DEFLATE).
+  { match goal with |- context [dz_ask OT ask w ?q] => pose proof (dz_ask_D w q) as H; destruct (dz_ask OT ask w q) as [a w1] end.
+    destruct (negb (da_rc a =? c_dz_Z_OK)); exact H. }
+  destruct (dz_zinit l =? c_dz_COMPRESSION_GZIP); auto.
+  match goal with |- context [dz_ask OT ask w ?q] => pose proof (dz_ask_D w q) as H; destruct (dz_ask OT ask w q) as [a w1] end.
+  destruct (negb (da_rc a =? c_dz_Z_OK)); exact H.
+Qed.
+
+Lemma dz_decode_D d l (w : world) input rc :
+  match dz_decode OT ask d l w input rc with
+  | inl (_, w', _, _) => dz_D w' = dz_D w
+  | inr (_, w', _) => dz_D w' = dz_D w
+  end.
+Proof.
+  unfold dz_decode. destruct (dz_zinit l =? c_dz_COMPRESSION_LZMA).
+  - destruct (dz_lz_header d l input) as [l1 input1].
+    destruct (dz_hlen l1 =? c_dz_LZMA_HEADER_SIZE).
+    + pose proof (dz_ask_D w QLzAlloc) as H1. destruct (dz_ask OT ask w QLzAlloc) as [a w1]. cbn [snd] in H1.
+      destruct (negb (da_rc a =? c_dz_SZ_OK)); auto.
+      destruct (dz_hlen (dz_set_hlen l1 (dz_hlen l1 + 1)) >? c_dz_LZMA_HEADER_SIZE); auto.
+      match goal with |- context [dz_ask OT ask w1 ?q] => pose proof (dz_ask_D w1 q) as H2; destruct (dz_ask OT ask w1 q) as [a2 w2] end.
+      cbn [snd] in H2. congruence.
+    + destruct (dz_hlen l1 >? c_dz_LZMA_HEADER_SIZE); auto.
+      match goal with |- context [dz_ask OT ask w ?q] => pose proof (dz_ask_D w q) as H2; destruct (dz_ask OT ask w q) as [a2 w2] end.
+      exact H2.
+  - destruct (negb (dz_zinit l =? 0)); auto.
+    match goal with |- context [dz_ask OT ask w ?q] => pose proof (dz_ask_D w q) as H2; destruct (dz_ask OT ask w q) as [a2 w2] end.
+    exact H2.
+Qed.
+
+Definition dz_next_D (f : dz_next_t OT) : Prop := forall ls d (w : world), dz_D (snd (fst (f ls d w))) = dz_D w.
+
+Section OneLayerD.
+Variable next : dz_next_t OT.
+Hypothesis HnextD : dz_next_D next.
+
+Lemma dz_deliver_D l rest dd (w : world) : dz_D (snd (fst (dz_deliver OT c next l rest dd w))) = dz_D w.
+Proof.
+  unfold dz_deliver.
+  assert (Hcb : forall rest0 : list dz_layer, dz_D (snd (fst (let '(w0, rc) := dz_callback OT c dd w in (rest0, w0, rc)))) = dz_D w).
+  { intros rest0. pose proof (dz_callback_D dd w). destruct (dz_callback OT c dd w). exact H. }
+  destruct rest; auto. destruct (negb (dz_zinit l =? 0)); auto.
+Qed.
+
+Definition dz_step_D (w : world) (s : dz_step OT) : Prop :=
+  match s with DzRet _ _ _ w' _ => dz_D w' = dz_D w | DzCont _ _ _ w' _ _ => dz_D w' = dz_D w | DzRestart _ _ _ w' _ _ => dz_D w' = dz_D w end.
+
+Lemma dz_after_D d l rest (w : world) input rc : dz_step_D w (dz_after OT ask c next d l rest w input rc).
+Proof.
+  unfold dz_after.
+  set (rc' := if (dz_avail_out l <? dz_BUF)%nat && (rc =? c_dz_Z_DATA_ERROR) then c_dz_Z_STREAM_END else rc).
+  destruct (rc' =? c_dz_Z_STREAM_END).
+  { pose proof (dz_deliver_D l rest (dz_some (dz_obuf l)) w) as Hd.
+    destruct (dz_deliver OT c next l rest (dz_some (dz_obuf l)) w) as [[rest1 w1] crc]. cbn [fst snd] in Hd.
+    destruct (negb (crc =? c_HTP_OK)); [|exact Hd].
+    pose proof (dz_end_D l w1) as He. destruct (dz_end OT ask l w1) as [l2 w2]. cbn [dz_step_D snd] in *. congruence. }
+  destruct (negb (rc' =? c_dz_Z_OK)); [|reflexivity].
+  pose proof (dz_fail_end_D l w) as H1. destruct (dz_fail_end OT ask l w) as [l1 w1]. cbn [snd] in H1.
+  set (w1' := if dz_fed l1 then w_set_late OT w1 true else w1).
+  assert (H1' : dz_D w1' = dz_D w). { subst w1'. destruct (dz_fed l1); [rewrite <- H1; apply dz_D_frame; reflexivity | exact H1]. }
+  pose proof (dz_restart_dec_D l1 (dd_bytes d) w1') as H2.
+  destruct (dz_restart_dec OT ask l1 (dd_bytes d) w1') as [[l2 w2] [cn|]]; cbn [fst snd] in H2.
+  - cbn [dz_step_D]. rewrite <- H1', <- H2. apply dz_D_frame; reflexivity.
+  - pose proof (dz_callback_D d w2) as H3. destruct (dz_callback OT c d w2) as [w3 crc]. cbn [fst] in H3.
+    destruct (negb (crc =? c_HTP_OK)); cbn [dz_step_D]; congruence.
+Qed.
+
+Lemma dz_iter_D d l rest (w : world) input rc : dz_step_D w (dz_iter OT ask c next d l rest w input rc).
+Proof.
+  unfold dz_iter, dz_flush_full.
+  destruct (dz_avail_out l =? 0)%nat.
+  - pose proof (dz_deliver_D l rest (dz_some (dz_obuf l)) w) as Hd.
+    destruct (dz_deliver OT c next l rest (dz_some (dz_obuf l)) w) as [[rest1 w1] crc]. cbn [fst snd] in Hd.
+    destruct (negb (crc =? c_HTP_OK)).
+    + pose proof (dz_end_D l w1) as He. destruct (dz_end OT ask l w1) as [l2 w2]. cbn [dz_step_D snd] in *. congruence.
+    + pose proof (dz_decode_D d (dz_set_obuf l []) w1 input rc) as H2.
+      destruct (dz_decode OT ask d (dz_set_obuf l []) w1 input rc) as [[[[l2 w2] in2] rc2]|[[l2 w2] r2]].
+      * pose proof (dz_after_D d l2 rest1 w2 in2 rc2) as H3.
+        destruct (dz_after OT ask c next d l2 rest1 w2 in2 rc2); cbn [dz_step_D] in *; congruence.
+      * cbn [dz_step_D]. congruence.
+  - pose proof (dz_decode_D d l w input rc) as H2.
+    destruct (dz_decode OT ask d l w input rc) as [[[[l2 w2] in2] rc2]|[[l2 w2] r2]].
+    + pose proof (dz_after_D d l2 rest w2 in2 rc2) as H3.
+      destruct (dz_after OT ask c next d l2 rest w2 in2 rc2); cbn [dz_step_D] in *; congruence.
+    + cbn [dz_step_D]. congruence.
+Qed.
+
+Lemma dz_loop_D d fuel : forall l rest (w : world) input rc,
+  dz_D (snd (fst (dz_loop OT ask c next fuel d l rest w input rc))) = dz_D w.
+Proof.
+  induction fuel as [|f IH]; intros; cbn [dz_loop]; auto.
+  destruct input as [|b input']; auto.
+  pose proof (dz_iter_D d l rest w (b :: input') rc) as Hi.
+  destruct (dz_iter OT ask c next d l rest w (b :: input') rc) as [l1 rest1 w1 r1|l1 rest1 w1 in1 rc1|l1 rest1 w1 cn rc1]; cbn [dz_step_D] in Hi.
+  - exact Hi.
+  - rewrite IH. exact Hi.
+  - destruct (dz_enter d cn); [rewrite IH|]; exact Hi.
+Qed.
+
+Lemma dz_layer_run_D l rest d (w : world) : dz_D (snd (fst (dz_layer_run OT ask c next l rest d w))) = dz_D w.
+Proof.
+  unfold dz_layer_run.
+  destruct (dz_pass l).
+  { pose proof (dz_callback_D d w). destruct (dz_callback OT c d w). exact H. }
+  destruct (dd_null d).
+  { set (dout := match dz_obuf l with [] => dz_null | _ :: _ => dz_some (dz_obuf l) end).
+    assert (Hcb : forall ls0, dz_D (snd (fst (let '(w0, crc) := dz_callback OT c dout w in
+                     if negb (crc =? c_HTP_OK) then let '(l0, w1) := dz_end OT ask l w0 in (l0 :: ls0, w1, crc) else (l :: ls0, w0, c_HTP_OK)))) = dz_D w).
+    { intros ls0. pose proof (dz_callback_D dout w) as H1. destruct (dz_callback OT c dout w) as [w1 crc]. cbn [fst] in H1.
+      destruct (negb (crc =? c_HTP_OK)); [|exact H1].
+      pose proof (dz_end_D l w1) as H2. destruct (dz_end OT ask l w1). cbn [fst snd] in *. congruence. }
+    destruct rest as [|l2 r2]; auto.
+    destruct (negb (dz_zinit l =? 0)); auto.
+    pose proof (HnextD (l2 :: r2) dout w) as H1. destruct (next (l2 :: r2) dout w) as [[rest1 w1] r1]. exact H1. }
+  destruct (dz_enter d 0); auto.
+  pose proof (dz_loop_D d (dc_fuel c) l rest w b 0) as H1.
+  destruct (dz_loop OT ask c next (dc_fuel c) d l rest w b 0) as [[[l1 rest1] w1] r1]. exact H1.
+Qed.
+End OneLayerD.
+
+Lemma dz_decompress_D n : dz_next_D (dz_decompress OT ask c n).
+Proof.
+  induction n as [|n IH]; unfold dz_next_D; intros ls d w; cbn [dz_decompress]; auto.
+  destruct ls as [|l rest]; auto. apply dz_layer_run_D. exact IH.
+Qed.
+
+Lemma dz_destroy_D ls : forall (w : world), dz_D (dz_destroy OT ask ls w) = dz_D w.
+Proof.
+  induction ls as [|l r IH]; intros w; cbn [dz_destroy]; auto.
+  pose proof (dz_end_D l w) as H. destruct (dz_end OT ask l w) as [l1 w1]. rewrite IH. exact H.
+Qed.
+
+Lemma dz_process_body_data_D (t : dz_tx OT) extra data :
+  dz_D (tx_w OT (fst (dz_process_body_data OT ask c t extra data))) = dz_D (tx_w OT t).
+Proof.
+  unfold dz_process_body_data. cbv zeta.
+  set (d := dz_data_of data).
+  set (w1 := w_set_message OT (tx_w OT t) (w_message OT (tx_w OT t) + extra + dz_len d)).
+  assert (H1 : dz_D w1 = dz_D (tx_w OT t)) by (apply dz_D_frame; reflexivity).
+  destruct (dz_is_coded (tx_cep OT t)).
+  - destruct (tx_chain OT t) as [|l rest]; [exact H1|].
+    unfold dz_gettimeofday at 1.
+    set (w2 := w_set_nbcb OT (w_set_tbefore OT (w_tick_clock OT w1) (dc_clock c (w_nclock OT w1))) 0).
+    assert (H2 : dz_D w2 = dz_D w1) by (apply dz_D_frame; reflexivity).
+    pose proof (dz_decompress_D (length (l :: rest)) (l :: rest) d w2) as H3.
+    destruct (dz_decompress OT ask c (length (l :: rest)) (l :: rest) d w2) as [[chain w3] r3]. cbn [fst snd] in H3.
+    unfold dz_gettimeofday.
+    set (w4 := match dz_timer_track _ _ _ with Some sp => _ | None => _ end).
+    assert (H4 : dz_D w4 = dz_D w3).
+    { subst w4. destruct (dz_timer_track _ _ _) as [sp|]; [destruct (sp >? dc_tlimit c)|]; apply dz_D_frame; reflexivity. }
+    destruct data; cbn [fst tx_w].
+    + transitivity (dz_D w4); [apply dz_D_frame; reflexivity|congruence].
+    + rewrite dz_destroy_D. transitivity (dz_D w4); [apply dz_D_frame; reflexivity|congruence].
+  - destruct (tx_cep OT t =? c_dz_COMPRESSION_NONE); [|exact H1].
+    pose proof (dz_run_hook_D d (w_set_entity OT w1 (w_entity OT w1 + dz_len d))) as Hh.
+    destruct (dz_run_hook OT c d (w_set_entity OT w1 (w_entity OT w1 + dz_len d))) as [w2 rc]. cbn [fst tx_w] in *.
+    rewrite Hh. rewrite <- H1. unfold dz_D at 1, dz_evsum. wsimpl. fold (dz_evsum w1). unfold dz_D.
+    destruct (negb (dd_null d) && (dz_len d =? 0)) eqn:Hz; [|lia].
+    apply andb_true_iff in Hz. destruct Hz as [_ Hz]. apply Z.eqb_eq in Hz. lia.
+Qed.
+
+Lemma dz_calls_D calls : forall (t : dz_tx OT), dz_D (tx_w OT (dz_calls OT ask c t calls)) = dz_D (tx_w OT t).
+Proof.
+  induction calls as [|[extra d] r IH]; intros t; cbn [dz_calls]; auto. rewrite IH. apply dz_process_body_data_D.
+Qed.
+
+Lemma dz_create_D fmt (w : world) : dz_D (snd (dz_create OT ask c fmt w)) = dz_D w.
+Proof.
+  unfold dz_create.
+  destruct (fmt =? c_dz_COMPRESSION_LZMA). { destruct ((dc_lzma_mem c >? 0) && (dc_lzma_layers c >? 0)); reflexivity. }
+  destruct (fmt =? c_dz_COMPRESSION_DEFLATE).
+  { match goal with |- context [dz_ask OT ask w ?q] => pose proof (dz_ask_D w q) as H; destruct (dz_ask OT ask w q) as [a w1] end. cbn [snd] in H.
+    destruct (negb (da_rc a =? c_dz_Z_OK)); [|exact H].
+    pose proof (dz_ask_D w1 QEnd) as H2. destruct (dz_ask OT ask w1 QEnd). cbn [snd] in *. congruence. }
+  destruct (fmt =? c_dz_COMPRESSION_GZIP); [|reflexivity].
+  match goal with |- context [dz_ask OT ask w ?q] => pose proof (dz_ask_D w q) as H; destruct (dz_ask OT ask w q) as [a w1] end. cbn [snd] in H.
+  destruct (negb (da_rc a =? c_dz_Z_OK)); [|exact H].
+  pose proof (dz_ask_D w1 QEnd) as H2. destruct (dz_ask OT ask w1 QEnd). cbn [snd] in *. congruence.
+Qed.
+
+Lemma dz_tokens_D fuel : forall input layers nblzma chain cep (w : world),
+  dz_D (tx_w OT (dz_tokens OT ask c fuel input layers nblzma chain cep w)) = dz_D w.
+Proof.
+  induction fuel as [|f IH]; intros input layers nblzma chain cep w; cbn [dz_tokens]; [reflexivity|].
+  destruct input as [|b input']; [reflexivity|].
+  destruct (dz_get_token (b :: input')) as [tok|]; [|reflexivity].
+  destruct (negb (dc_layers c =? 0) && (layers + 1 >? dc_layers c)); [reflexivity|].
+  set (cs := if negb (index_of_mem_nocase tok s_gzip =? -1) then _ else _).
+  destruct cs as [cetype stop]. destruct stop; [reflexivity|].
+  assert (Hnext : forall chain' cep' (w' : world), dz_D w' = dz_D w ->
+     dz_D (tx_w OT (if (length (b :: input') <=? S (length tok))%nat then mk_dz_tx OT chain' cep' w' false
+               else dz_tokens OT ask c f (skipn (S (length tok)) (b :: input'))
+                      (if negb (dc_layers c =? 0) then layers + 1 else layers) (nblzma + 1) chain' cep' w')) = dz_D w).
+  { intros chain' cep' w' H'. destruct (length (b :: input') <=? S (length tok))%nat; [exact H'|]. rewrite IH. exact H'. }
+  destruct (negb (cetype =? c_dz_COMPRESSION_NONE)); [|apply Hnext; reflexivity].
+  pose proof (dz_create_D cetype w) as Hc.
+  destruct chain as [|l0 r0]; destruct (dz_create OT ask c cetype w) as [[l|] w1]; cbn [snd] in Hc; try (apply Hnext; exact Hc); exact Hc.
+Qed.
+
+Lemma dz_response_headers_D ce (w : world) : dz_D (tx_w OT (dz_response_headers OT ask c ce w)) = dz_D w.
+Proof.
+  unfold dz_response_headers.
+  set (cm := match ce with None => _ | Some v => _ end). destruct cm as [coding multi].
+  set (cm2 := if dc_enabled c then (coding, multi) else (c_dz_COMPRESSION_NONE, false)). destruct cm2 as [cep multi2].
+  destruct ((cep =? c_dz_COMPRESSION_GZIP) || (cep =? c_dz_COMPRESSION_DEFLATE) || (cep =? c_dz_COMPRESSION_LZMA) || multi2); [|reflexivity].
+  destruct (negb multi2).
+  - pose proof (dz_create_D cep w) as Hc. destruct (dz_create OT ask c cep w) as [[l|] w1]; exact Hc.
+  - destruct ce as [v|]; [|reflexivity]. apply dz_tokens_D.
+Qed.
+
+(* the sum of the sizes of the blocks the hook received equals entity_len at the end of the message *)
+Theorem dz_delivered_is_entity ce calls (o : OT) :
+  let w := tx_w OT (fst (dz_run OT ask c ce calls o)) in
+  dz_evsum w = w_entity OT w.
+Proof.
+  unfold dz_run. cbn [fst tx_w].
+  assert (H : dz_D (dz_destroy OT ask (tx_chain OT (dz_calls OT ask c (dz_response_headers OT ask c ce (dz_world0 OT o)) calls))
+                      (tx_w OT (dz_calls OT ask c (dz_response_headers OT ask c ce (dz_world0 OT o)) calls))) = 0).
+  { rewrite dz_destroy_D, dz_calls_D, dz_response_headers_D. reflexivity. }
+  unfold dz_D in H. lia.
+Qed.
+
+(* ------------------------------------------------------------------ Part 2: layer limits *)
+
+Definition dz_is_lzma (l : dz_layer) : bool := (dz_zinit l =? c_dz_COMPRESSION_LZMA) && negb (dz_pass l).
+Definition dz_nlzma (ls : list dz_layer) : Z := Z.of_nat (length (filter dz_is_lzma ls)).
+
+Lemma dz_create_zinit fmt (w : world) l w' : dz_create OT ask c fmt w = (Some l, w') ->
+  dz_zinit l = fmt /\ (dz_is_lzma l = true -> fmt = c_dz_COMPRESSION_LZMA /\ 0 < dc_lzma_layers c).
+Proof.
+  unfold dz_create, dz_is_lzma.
+  destruct (fmt =? c_dz_COMPRESSION_LZMA) eqn:Hl.
+  { apply Z.eqb_eq in Hl. destruct ((dc_lzma_mem c >? 0) && (dc_lzma_layers c >? 0)) eqn:Hc; intros H; inversion H; subst; cbn [dz_zinit dz_pass]; split; auto.
+    - intros _. split; auto. apply andb_true_iff in Hc. destruct Hc as [_ Hc]. rewrite Z.gtb_ltb in Hc. apply Z.ltb_lt in Hc. exact Hc.
+    - rewrite andb_false_r. discriminate. }
+  destruct (fmt =? c_dz_COMPRESSION_DEFLATE).
+  { destruct (dz_ask OT ask w _) as [a w1]. destruct (negb (da_rc a =? c_dz_Z_OK)); [destruct (dz_ask OT ask w1 QEnd); discriminate|].
+    intros H; inversion H; subst; cbn [dz_zinit dz_pass]. split; auto. rewrite Hl. discriminate. }
+  destruct (fmt =? c_dz_COMPRESSION_GZIP); [|discriminate].
+  destruct (dz_ask OT ask w _) as [a w1]. destruct (negb (da_rc a =? c_dz_Z_OK)); [destruct (dz_ask OT ask w1 QEnd); discriminate|].
+  intros H; inversion H; subst; cbn [dz_zinit dz_pass]. split; auto. rewrite Hl. discriminate.
+Qed.
+
+Lemma dz_nlzma_app ls l : dz_nlzma (ls ++ [l]) = dz_nlzma ls + (if dz_is_lzma l then 1 else 0).
+Proof. unfold dz_nlzma. rewrite filter_app, app_length. cbn [filter]. destruct (dz_is_lzma l); cbn [length]; lia. Qed.
+
+Lemma dz_tokens_layers fuel : forall input layers nblzma chain cep (w : world),
+  0 <= nblzma ->
+  (0 < dc_layers c -> Z.of_nat (length chain) <= layers /\ layers <= dc_layers c) ->
+  dz_nlzma chain <= Z.min nblzma (Z.max 0 (dc_lzma_layers c)) ->
+  let t := dz_tokens OT ask c fuel input layers nblzma chain cep w in
+  (0 < dc_layers c -> Z.of_nat (length (tx_chain OT t)) <= dc_layers c) /\ dz_nlzma (tx_chain OT t) <= Z.max 0 (dc_lzma_layers c).
+Proof.
+  induction fuel as [|f IH]; intros input layers nblzma chain cep w Hnb Hlay Hlz; cbn [dz_tokens].
+  { cbn [tx_chain]. split; [intros Hp; destruct Hlay; lia|lia]. }
+  assert (Hstop : (0 < dc_layers c -> Z.of_nat (length chain) <= dc_layers c) /\ dz_nlzma chain <= Z.max 0 (dc_lzma_layers c)).
+  { split; [intros Hp; destruct Hlay; lia|lia]. }
+  destruct input as [|b input']; [exact Hstop|].
+  destruct (dz_get_token (b :: input')) as [tok|]; [|exact Hstop].
+  destruct (negb (dc_layers c =? 0) && (layers + 1 >? dc_layers c)) eqn:Hlim; [exact Hstop|].
+  set (layers2 := if negb (dc_layers c =? 0) then layers + 1 else layers).
+  assert (Hlay2 : 0 < dc_layers c -> Z.of_nat (length chain) + 1 <= layers2 /\ layers2 <= dc_layers c).
+  { intros Hpos. destruct (Hlay Hpos). assert (Hne : dc_layers c <> 0) by lia. subst layers2. apply Z.eqb_neq in Hne. rewrite Hne in *. cbn [negb andb] in *.
+    rewrite Z.gtb_ltb, Z.ltb_ge in Hlim. lia. }
+  set (cs := if negb (index_of_mem_nocase tok s_gzip =? -1) then _ else _).
+  assert (Hcs : fst cs = c_dz_COMPRESSION_LZMA -> snd cs = false -> nblzma + 1 <= dc_lzma_layers c).
+  { subst cs. destruct (negb (index_of_mem_nocase tok s_gzip =? -1)); [cbn; discriminate|].
+    destruct (negb (index_of_mem_nocase tok s_deflate =? -1)); [cbn; discriminate|].
+    destruct (cmp_mem tok s_lzma =? 0); [|cbn; discriminate].
+    cbn [fst snd]. intros _ Hs. rewrite Z.gtb_ltb, Z.ltb_ge in Hs. exact Hs. }
+  destruct cs as [cetype stop]. cbn [fst snd] in Hcs. destruct stop; [exact Hstop|].
+  assert (Hnext : forall chain' cep' (w' : world),
+     (0 < dc_layers c -> Z.of_nat (length chain') <= layers2 /\ layers2 <= dc_layers c) ->
+     dz_nlzma chain' <= Z.min (nblzma + 1) (Z.max 0 (dc_lzma_layers c)) ->
+     let t := (if (length (b :: input') <=? S (length tok))%nat then mk_dz_tx OT chain' cep' w' false
+               else dz_tokens OT ask c f (skipn (S (length tok)) (b :: input')) layers2 (nblzma + 1) chain' cep' w') in
+     (0 < dc_layers c -> Z.of_nat (length (tx_chain OT t)) <= dc_layers c) /\ dz_nlzma (tx_chain OT t) <= Z.max 0 (dc_lzma_layers c)).
+  { intros chain' cep' w' Hl' Hz'. destruct (length (b :: input') <=? S (length tok))%nat.
+    - cbn [tx_chain]. split; [intros Hp; destruct Hl'; lia|lia].
+    - apply IH; auto; lia. }
+  assert (Hsame : dz_nlzma chain <= Z.min (nblzma + 1) (Z.max 0 (dc_lzma_layers c))) by lia.
+  assert (Hlaysame : 0 < dc_layers c -> Z.of_nat (length chain) <= layers2 /\ layers2 <= dc_layers c).
+  { intros Hne. destruct (Hlay2 Hne). lia. }
+  destruct (negb (cetype =? c_dz_COMPRESSION_NONE)); [|apply Hnext; auto].
+  assert (Hadd : forall l w1, dz_create OT ask c cetype w = (Some l, w1) -> (if dz_is_lzma l then 1 else 0) + dz_nlzma chain <= Z.min (nblzma + 1) (Z.max 0 (dc_lzma_layers c))).
+  { intros l w1 Hcr. apply dz_create_zinit in Hcr. destruct Hcr as [Hz Hl]. destruct (dz_is_lzma l); [|lia].
+    destruct (Hl eq_refl) as [Hfmt Hpos]. specialize (Hcs Hfmt eq_refl). lia. }
+  destruct chain as [|l0 r0].
+  - destruct (dz_create OT ask c cetype w) as [[l|] w1] eqn:Hcr.
+    + apply Hnext.
+      * intros Hne. destruct (Hlay2 Hne). cbn [length] in *. lia.
+      * specialize (Hadd l w1 eq_refl). unfold dz_nlzma in *. cbn [filter length] in *. destruct (dz_is_lzma l); cbn [length]; lia.
+    + cbn [tx_chain]. split; [intros; cbn; lia|]. unfold dz_nlzma. cbn. lia.
+  - destruct (dz_create OT ask c cetype w) as [[l|] w1] eqn:Hcr.
+    + apply Hnext.
+      * intros Hne. destruct (Hlay2 Hne). rewrite app_length. cbn [length] in *. lia.
+      * specialize (Hadd l w1 eq_refl). rewrite dz_nlzma_app. lia.
+    + cbn [tx_chain]. exact Hstop.
+Qed.
+
+Theorem dz_layers_bounded ce (w : world) :
+  let t := dz_response_headers OT ask c ce w in
+  (0 < dc_layers c -> Z.of_nat (length (tx_chain OT t)) <= dc_layers c) /\ dz_nlzma (tx_chain OT t) <= Z.max 0 (dc_lzma_layers c).
+Proof.
+  unfold dz_response_headers.
+  set (cm := match ce with None => _ | Some v => _ end). destruct cm as [coding multi].
+  set (cm2 := if dc_enabled c then (coding, multi) else (c_dz_COMPRESSION_NONE, false)). destruct cm2 as [cep multi2].
+  assert (Hnil : (0 < dc_layers c -> Z.of_nat (@length dz_layer []) <= dc_layers c) /\ dz_nlzma [] <= Z.max 0 (dc_lzma_layers c)).
+  { unfold dz_nlzma. cbn. split; lia. }
+  destruct ((cep =? c_dz_COMPRESSION_GZIP) || (cep =? c_dz_COMPRESSION_DEFLATE) || (cep =? c_dz_COMPRESSION_LZMA) || multi2); [|exact Hnil].
+  destruct (negb multi2).
+  - destruct (dz_create OT ask c cep w) as [[l|] w1] eqn:Hcr; [|exact Hnil].
+    apply dz_create_zinit in Hcr. destruct Hcr as [Hz Hl]. cbn [tx_chain length]. split; [lia|].
+    unfold dz_nlzma. cbn [filter]. destruct (dz_is_lzma l); cbn [length]; [|lia]. destruct (Hl eq_refl). lia.
+  - destruct ce as [v|]; [|exact Hnil]. apply dz_tokens_layers; try lia.
+    + intros Hne. cbn. lia.
+    + unfold dz_nlzma. cbn. lia.
+Qed.
 End Bound.
+
+(* ------------------------------------------------------------------ packaged statements (closed) *)
+
+(* bytes handed to the RESPONSE_BODY_DATA hook for the message *)
+Definition dz_delivered_bytes {OT} (w : dz_world OT) : Z := dz_evsum OT w.
+
+Theorem dz_C07_bomb_bound :
+  forall (OT : Type) (ask : OT -> dz_query -> dz_ans * OT) (c : dz_cfg) (maxchunk : Z) ce calls (o : OT),
+    0 <= maxchunk -> dz_calls_ok maxchunk calls ->
+    let w := tx_w OT (fst (dz_run OT ask c ce calls o)) in
+    dz_delivered_bytes w <= Z.max (dc_bomb c) (2048 * w_message OT w) + Z.max 8192 maxchunk + 8192
+                            + Z.max 0 (dc_bomb c) / (c_HTP_COMPRESSION_BOMB_RATIO - 1).
+Proof.
+  intros. unfold dz_delivered_bytes. subst w. rewrite dz_delivered_is_entity. apply dz_bomb_bound_general; auto.
+Qed.
+
+(* with a bomb limit of at most (ratio - 1) output buffers (the default 1 MiB is), three buffers on top of the bound
+   when no body call carries more than one buffer *)
+Corollary dz_C07_bomb_bound_small_limit :
+  forall (OT : Type) (ask : OT -> dz_query -> dz_ans * OT) (c : dz_cfg) (maxchunk : Z) ce calls (o : OT),
+    0 <= maxchunk -> dz_calls_ok maxchunk calls ->
+    dc_bomb c <= (c_HTP_COMPRESSION_BOMB_RATIO - 1) * c_GZIP_BUF_SIZE ->
+    let w := tx_w OT (fst (dz_run OT ask c ce calls o)) in
+    dz_delivered_bytes w <= Z.max (dc_bomb c) (2048 * w_message OT w) + Z.max 8192 maxchunk + 2 * 8192.
+Proof.
+  intros OT ask c maxchunk ce calls o Hmc Hcalls Hlim w.
+  pose proof (dz_C07_bomb_bound OT ask c maxchunk ce calls o Hmc Hcalls) as H. cbv zeta in H. fold w in H.
+  pose proof dz_bomb_ratio_ge as HR. rewrite dz_buf_size in Hlim.
+  assert (Z.max 0 (dc_bomb c) / (c_HTP_COMPRESSION_BOMB_RATIO - 1) <= 8192).
+  { apply Z.div_le_upper_bound; lia. }
+  lia.
+Qed.
+
+Theorem dz_C07_layers_bounded :
+  forall (OT : Type) (ask : OT -> dz_query -> dz_ans * OT) (c : dz_cfg) ce (w : dz_world OT),
+    let t := dz_response_headers OT ask c ce w in
+    (0 < dc_layers c -> Z.of_nat (length (tx_chain OT t)) <= dc_layers c) /\
+    dz_nlzma (tx_chain OT t) <= Z.max 0 (dc_lzma_layers c).
+Proof. intros. apply dz_layers_bounded. Qed.
+
+(* ------------------------------------------------------------------ Part 3: the wrapper is faithful (single layer, no restart) *)
+
+Definition dz_devs {OT} (w : dz_world OT) : bytes := concat (map dd_bytes (rev (w_events OT w))).
+
+Section Faithful.
+(* the external decoder as a state machine *)
+Variable zst : Type.
+Variable zinit : Z -> zst.                                             (* state after inflateInit2(windowBits) *)
+Variable zinflate : zst -> bytes -> nat -> zst * nat * bytes * Z.      (* state, offered input, avail_out -> state', consumed, produced, rc *)
+
+Definition zask (z : zst) (q : dz_query) : dz_ans * zst :=
+  match q with
+  | QInit wb => (mk_dz_ans 0 [] c_dz_Z_OK 0, zinit wb)
+  | QInflate inp ao => let '(z', cn, out, rc) := zinflate z inp ao in (mk_dz_ans cn out rc 0, z')
+  | _ => (mk_dz_ans 0 [] 0 0, z)
+  end.
+
+(* zvalid z s p: in state z, the rest s of the stream decodes to the rest p of the payload.
+   Contract: offered a non-empty prefix of the rest of the stream and room for output, the decoder consumes a part of what is
+   offered, produces the next part of the payload, makes progress, and reports Z_STREAM_END exactly in the call that consumes the
+   last byte of the stream, with all output produced (true of formats with a trailer: gzip, zlib). *)
+Variable zvalid : zst -> bytes -> bytes -> Prop.
+Hypothesis Hz2 : forall z s p offered rest ao,
+  zvalid z s p -> s = offered ++ rest -> offered <> [] -> (0 < ao)%nat ->
+  let '(z', cn, out, rc) := zinflate z offered ao in
+  (cn <= length offered)%nat /\ (length out <= ao)%nat /\ exists p', p = out ++ p' /\
+  ((rc = c_dz_Z_OK /\ zvalid z' (skipn cn s) p' /\ (0 < cn + length out)%nat /\ skipn cn s <> []) \/
+   (rc = c_dz_Z_STREAM_END /\ skipn cn s = [] /\ p' = [])).
+
+Variable c : dz_cfg.
+Variable t0 : Z * Z.
+Hypothesis Hclock : forall k, dc_clock c k = t0.
+Hypothesis Htlimit : 0 <= dc_tlimit c.
+Hypothesis Hhook : forall k, dc_hook c k = c_HTP_OK.
+
+Variable fmt : Z.
+Hypothesis Hfmt : fmt = c_dz_COMPRESSION_GZIP \/ fmt = c_dz_COMPRESSION_DEFLATE.
+Variable p : bytes.                                   (* the payload *)
+Hypothesis Hbomb : Z.of_nat (length p) <= dc_bomb c.  (* the bomb test cannot fire *)
+
+Notation world := (dz_world zst).
+Definition dz_BW0 (w : world) : Prop := w_tspent zst w = 0 /\ w_tpass zst w = false.
+Definition dz_BW (w : world) : Prop := dz_BW0 w /\ w_tbefore zst w = t0.
+
+Ltac wsimpl := cbn [w_o w_entity w_message w_events w_nhook w_nclock w_nbcb w_tbefore w_tspent w_tpass w_trace w_late
+                    w_set_o w_set_entity w_set_message w_push_event w_tick_clock w_set_nbcb w_set_tbefore w_set_tspent
+                    w_set_tpass w_set_trace w_set_late
+                    dz_pass dz_restart dz_zinit dz_obuf dz_hlen dz_fed
+                    dz_set_pass dz_set_restart dz_set_zinit dz_set_obuf dz_set_hlen dz_set_fed fst snd] in *.
+
+Lemma dz_timer_track_same sp t : dz_timer_track sp t t = Some sp.
+Proof. unfold dz_timer_track. destruct t as [a b]. rewrite Z.ltb_irrefl, Z.eqb_refl, Z.ltb_irrefl. f_equal. lia. Qed.
+
+Lemma dz_devs_push (w : world) d : dz_devs (w_push_event zst w d) = dz_devs w ++ dd_bytes d.
+Proof. unfold dz_devs. wsimpl. cbn [rev]. rewrite map_app, concat_app. cbn. rewrite app_nil_r. reflexivity. Qed.
+
+(* a callback in a benign world: accepted *)
+Lemma dz_callback_benign d (w : world) :
+  dz_BW w -> w_entity zst w = Z.of_nat (length (dz_devs w)) -> Z.of_nat (length (dz_devs w)) + dz_len d <= dc_bomb c ->
+  exists w', dz_callback zst c d w = (w', c_HTP_OK) /\ dz_BW w' /\ w_o zst w' = w_o zst w /\
+             dz_devs w' = dz_devs w ++ dd_bytes d /\ w_entity zst w' = Z.of_nat (length (dz_devs w')) /\ w_message zst w' = w_message zst w.
+Proof.
+  intros ((Hsp & Htp) & Htb) Hent Hb. unfold dz_callback.
+  set (w1 := w_set_entity zst w (w_entity zst w + dz_len d)).
+  assert (Hh : exists w2, dz_run_hook zst c d w1 = (w2, c_HTP_OK) /\ dz_devs w2 = dz_devs w ++ dd_bytes d /\
+             w_entity zst w2 = w_entity zst w + dz_len d /\ w_o zst w2 = w_o zst w /\ w_message zst w2 = w_message zst w /\
+             w_tspent zst w2 = 0 /\ w_tpass zst w2 = false /\ w_tbefore zst w2 = t0).
+  { unfold dz_run_hook. destruct (negb (dd_null d) && (dz_len d =? 0)) eqn:Hz.
+    - exists w1. subst w1. wsimpl. repeat split; auto.
+      apply andb_true_iff in Hz. destruct Hz as [_ Hz]. apply Z.eqb_eq in Hz. unfold dz_len in Hz.
+      destruct (dd_bytes d); [rewrite app_nil_r; reflexivity|cbn in Hz; lia].
+    - exists (w_push_event zst w1 d). rewrite Hhook. subst w1. repeat split; auto. rewrite dz_devs_push. reflexivity. }
+  destruct Hh as (w2 & Hh & Hd2 & He2 & Ho2 & Hm2 & Hsp2 & Htp2 & Htb2). rewrite Hh.
+  rewrite Z.eqb_refl. cbn [negb].
+  set (w3 := dz_cb_clock zst c (w_set_nbcb zst w2 (w_nbcb zst w2 + 1))).
+  assert (H3 : w_entity zst w3 = w_entity zst w2 /\ w_message zst w3 = w_message zst w2 /\ w_o zst w3 = w_o zst w2 /\
+               w_events zst w3 = w_events zst w2 /\ dz_BW w3).
+  { subst w3. unfold dz_cb_clock, dz_gettimeofday. wsimpl.
+    destruct ((w_nbcb zst w2 + 1) mod c_HTP_COMPRESSION_TIME_FREQ_TEST =? 0).
+    - rewrite Hclock. wsimpl. rewrite Htb2, Hsp2, dz_timer_track_same.
+      assert (Hng : (0 >? dc_tlimit c) = false) by (rewrite Z.gtb_ltb; apply Z.ltb_ge; lia). rewrite Hng.
+      wsimpl. unfold dz_BW, dz_BW0. wsimpl. repeat split; auto.
+    - unfold dz_BW, dz_BW0. wsimpl. repeat split; auto. }
+  destruct H3 as (He3 & Hm3 & Ho3 & Hev3 & HBW3).
+  assert (Hd3 : dz_devs w3 = dz_devs w2) by (unfold dz_devs; rewrite Hev3; reflexivity).
+  assert (Hlen : w_entity zst w3 = Z.of_nat (length (dz_devs w3))).
+  { rewrite He3, He2, Hd3, Hd2, Hent, app_length. unfold dz_len. lia. }
+  assert (Hnb : (w_entity zst w3 >? dc_bomb c) = false).
+  { rewrite Z.gtb_ltb. apply Z.ltb_ge. rewrite He3, He2, Hent. exact Hb. }
+  rewrite Hnb. cbn [andb].
+  exists w3. repeat split; auto; try congruence; try apply HBW3.
+Qed.
+
+Definition dz_FI (z : zst) (s_rem p_rem : bytes) (l : dz_layer) (w : world) : Prop :=
+  zvalid z s_rem p_rem /\ w_o zst w = z /\ dz_pass l = false /\ dz_zinit l = fmt /\
+  dz_devs w ++ dz_obuf l ++ p_rem = p /\ (length (dz_obuf l) <= dz_BUF)%nat /\ dz_BW w /\
+  w_entity zst w = Z.of_nat (length (dz_devs w)).
+Definition dz_FD (l : dz_layer) (w : world) : Prop :=
+  dz_pass l = false /\ dz_zinit l = fmt /\ dz_obuf l = [] /\ dz_devs w = p /\ dz_BW w /\
+  w_entity zst w = Z.of_nat (length (dz_devs w)).
+
+Lemma dz_fmt_facts : (fmt =? c_dz_COMPRESSION_LZMA) = false /\ (fmt =? 0) = false.
+Proof. destruct Hfmt as [-> | ->]; split; reflexivity. Qed.
+
+Lemma dz_skipn_app_le {A} n (a b : list A) : (n <= length a)%nat -> skipn n (a ++ b) = skipn n a ++ b.
+Proof. intros H. rewrite skipn_app. replace (n - length a)%nat with O by lia. reflexivity. Qed.
+
+Lemma dz_loop_faithful next d fuel : forall input rest z p_rem l (w : world) rc0,
+  dz_FI z (input ++ rest) p_rem l w -> input ++ rest <> [] -> (length input + length p_rem < fuel)%nat ->
+  exists l' w' r, dz_loop zst zask c next fuel d l [] w input rc0 = (l', [], w', r) /\ w_message zst w' = w_message zst w /\
+    ((rest <> [] /\ exists z' p_rem', dz_FI z' rest p_rem' l' w') \/ (rest = [] /\ dz_FD l' w')).
+Proof.
+  destruct dz_fmt_facts as [Hnl Hn0].
+  induction fuel as [|f IH]; intros input rest z p_rem l w rc0 HFI Hne Hfuel; [lia|].
+  cbn [dz_loop]. destruct input as [|b input'].
+  { exists l, w, c_HTP_OK. split; auto. split; auto. left. cbn [app] in *. split; auto. exists z, p_rem. exact HFI. }
+  set (input := b :: input') in *.
+  destruct HFI as (Hv & Ho & Hp & Hz & Hpay & Hlen & HBW & Hent).
+  (* the buffer-full flush *)
+  assert (Hfl : exists l1 w1, dz_flush_full zst zask c next l [] w = inl (l1, [], w1) /\ (0 < dz_avail_out l1)%nat /\
+            w_o zst w1 = z /\ dz_pass l1 = false /\ dz_zinit l1 = fmt /\ dz_devs w1 ++ dz_obuf l1 ++ p_rem = p /\
+            (length (dz_obuf l1) <= dz_BUF)%nat /\ dz_BW w1 /\ w_entity zst w1 = Z.of_nat (length (dz_devs w1)) /\ w_message zst w1 = w_message zst w).
+  { unfold dz_flush_full. destruct (dz_avail_out l =? 0)%nat eqn:Hao.
+    - apply Nat.eqb_eq in Hao. unfold dz_deliver.
+      destruct (dz_callback_benign (dz_some (dz_obuf l)) w HBW Hent) as (w1 & Hcb & HBW1 & Ho1 & Hd1 & He1 & Hm1).
+      { rewrite <- Hpay in Hbomb. rewrite !app_length in Hbomb. unfold dz_len. cbn [dd_bytes dz_some]. lia. }
+      rewrite Hcb. rewrite Z.eqb_refl. cbn [negb].
+      exists (dz_set_obuf l []), w1. wsimpl. cbn [dd_bytes dz_some] in Hd1. repeat split; auto; try congruence.
+      + unfold dz_avail_out. wsimpl. cbn [length]. unfold dz_BUF. rewrite dz_buf_size. lia.
+      + rewrite Hd1, <- app_assoc. cbn [app]. exact Hpay.
+      + cbn. lia.
+    - apply Nat.eqb_neq in Hao. exists l, w. repeat split; auto. lia. }
+  destruct Hfl as (l1 & w1 & Hfl & Hao1 & Ho1 & Hp1 & Hz1 & Hpay1 & Hlen1 & HBW1 & Hent1 & Hm1).
+  unfold dz_iter. rewrite Hfl.
+  (* the inflate call *)
+  pose proof (Hz2 z (input ++ rest) p_rem input rest (dz_avail_out l1) Hv eq_refl) as Hc.
+  assert (Hin : input <> []) by (subst input; discriminate).
+  specialize (Hc Hin Hao1).
+  unfold dz_decode. rewrite Hz1, Hnl, Hn0. cbn [negb].
+  unfold dz_ask. rewrite Ho1. cbn [zask].
+  destruct (zinflate z input (dz_avail_out l1)) as [[[z' cn] out] rc].
+  destruct Hc as (Hcn & Hout & p' & Hp' & Hcase). wsimpl. cbn [da_consumed da_out da_rc].
+  rewrite (Nat.min_l _ _ Hcn). rewrite (firstn_all2 out Hout).
+  set (l2 := dz_set_obuf l1 (dz_obuf l1 ++ out)). set (w2 := w_set_o zst w1 z').
+  assert (Hlen2 : (length (dz_obuf l2) <= dz_BUF)%nat).
+  { subst l2. wsimpl. rewrite app_length. unfold dz_avail_out in Hout. lia. }
+  unfold dz_after.
+  destruct Hcase as [(Hrc & Hv' & Hprog & Hmore)|(Hrc & Hdone & Hp'nil)].
+  - (* Z_OK *)
+    subst rc. replace (c_dz_Z_OK =? c_dz_Z_DATA_ERROR) with false by reflexivity. rewrite andb_false_r.
+    replace (c_dz_Z_OK =? c_dz_Z_STREAM_END) with false by reflexivity. rewrite Z.eqb_refl. cbn [negb].
+    rewrite dz_skipn_app_le in Hv', Hmore by exact Hcn.
+    destruct (IH (skipn cn input) rest z' p' l2 w2 c_dz_Z_OK) as (l3 & w3 & r3 & Hloop & Hm3 & Hres).
+    + subst l2 w2. unfold dz_FI. wsimpl. repeat split; auto.
+      rewrite <- Hpay1, Hp'. rewrite <- !app_assoc. reflexivity.
+    + exact Hmore.
+    + rewrite Hp', app_length in Hfuel. pose proof (skipn_length cn input). lia.
+    + exists l3, w3, r3. split; auto. split; [subst w2; wsimpl; congruence|exact Hres].
+  - (* Z_STREAM_END *)
+    subst rc p'. rewrite app_nil_r in Hp'. replace (c_dz_Z_STREAM_END =? c_dz_Z_DATA_ERROR) with false by reflexivity. rewrite andb_false_r.
+    rewrite Z.eqb_refl. unfold dz_deliver.
+    assert (HBW2 : dz_BW w2) by (subst w2; exact HBW1).
+    assert (Hent2 : w_entity zst w2 = Z.of_nat (length (dz_devs w2))) by (subst w2; exact Hent1).
+    destruct (dz_callback_benign (dz_some (dz_obuf l2)) w2 HBW2 Hent2) as (w3 & Hcb & HBW3 & Ho3 & Hd3 & He3 & Hm3).
+    { subst l2 w2. wsimpl. rewrite <- Hpay1, Hp' in Hbomb. rewrite !app_length in Hbomb. unfold dz_len. cbn [dd_bytes dz_some]. rewrite app_length.
+      replace (dz_devs (w_set_o zst w1 z')) with (dz_devs w1) by reflexivity. lia. }
+    rewrite Hcb. rewrite Z.eqb_refl. cbn [negb].
+    exists (dz_set_obuf l2 []), w3, c_HTP_OK. split; auto. split; [subst w2; wsimpl; congruence|]. right.
+    rewrite dz_skipn_app_le in Hdone by exact Hcn. apply app_eq_nil in Hdone. destruct Hdone as [_ Hrest]. split; auto.
+    unfold dz_FD. subst l2. wsimpl. repeat split; auto.
+    rewrite Hd3. cbn [dd_bytes dz_some]. subst w2. replace (dz_devs (w_set_o zst w1 z')) with (dz_devs w1) by reflexivity.
+    rewrite <- Hpay1, Hp'. reflexivity.
+Qed.
+End Faithful.
